@@ -280,14 +280,30 @@ func (pl *Pool) stringQuery(asserts []*Term, wantModel bool, timeout time.Durati
 	if len(pl.Procs) > 0 {
 		prelude = pl.Procs[0].prelude
 	}
+	// z3 5.1 is the faster one on pure regular-language memberships, z3 4.8.12 on
+	// concatenation/prefix constraints: both run, the first definite answer wins
 	t0 := time.Now()
-	v, m := OneShot("z3new", pl.Bank, asserts, timeout, wantModel, prelude, nil)
-	pl.StringWall += time.Since(t0)
-	if v != Unknown {
-		return v, m
+	type ans struct {
+		v Verdict
+		m *Model
 	}
-	t0 = time.Now()
-	v, m = OneShot("z3", pl.Bank, asserts, timeout, wantModel, prelude, nil)
+	cancel := make(chan struct{})
+	ch := make(chan ans, 2)
+	for _, name := range []string{"z3new", "z3"} {
+		go func(name string) {
+			v, m := OneShot(name, pl.Bank, asserts, timeout, wantModel, prelude, cancel)
+			ch <- ans{v, m}
+		}(name)
+	}
+	var res ans
+	for i := 0; i < 2; i++ {
+		a := <-ch
+		if a.v != Unknown {
+			res = a
+			break
+		}
+	}
+	close(cancel)
 	pl.StringWall += time.Since(t0)
-	return v, m
+	return res.v, res.m
 }
